@@ -1040,7 +1040,21 @@ def div_err(spec):
         return np.float32(e)
     if t == "f64":
         return np.float64(e)
+    if t == "npint":
+        return np.int64(int(e))
+    if t == "negzero":
+        return -0.0 if e == 0 else float(e)
+    if t == "pyfloat":
+        return float(e)
     return e
+
+
+UTD_FORMS = {"bool": bool, "npbool": np.bool_, "int": int}
+
+
+def div_utd(spec):
+    """`up_to_diagonal` in the type the spec asks for (canonical: spec["utd"], a Python bool)."""
+    return UTD_FORMS[spec.get("utd_form", "bool")](spec.get("utd"))
 
 
 def div_gate(entry, m, k, cs, spec):
@@ -1061,12 +1075,12 @@ def div_gate(entry, m, k, cs, spec):
         return cls(m, k, ctrl_state=cs)
     if entry == "mcg":
         if style == "pos":
-            return Mcg(m, k, cs, bool(utd)) if utd is not None else Mcg(m, k, cs)
+            return Mcg(m, k, cs, div_utd(spec)) if utd is not None else Mcg(m, k, cs)
         if style == "allkw":
-            return Mcg(unitary=m, num_controls=k, ctrl_state=cs, up_to_diagonal=bool(utd))
+            return Mcg(unitary=m, num_controls=k, ctrl_state=cs, up_to_diagonal=div_utd(spec))
         if style == "default":        # only the keyword under test, ctrl_state left out
-            return Mcg(m, k, up_to_diagonal=bool(utd)) if utd is not None else Mcg(m, k)
-        return Mcg(m, k, ctrl_state=cs, up_to_diagonal=bool(utd)) if utd is not None else Mcg(m, k, ctrl_state=cs)
+            return Mcg(m, k, up_to_diagonal=div_utd(spec)) if utd is not None else Mcg(m, k)
+        return Mcg(m, k, ctrl_state=cs, up_to_diagonal=div_utd(spec)) if utd is not None else Mcg(m, k, ctrl_state=cs)
     if entry == "mcu":
         e = div_err(spec)
         if style == "pos":
@@ -1267,8 +1281,12 @@ def div_key(spec):
     h = spec.get("host")
     parts = ["u2:div", spec["entry"], spec.get("form", "class"), spec.get("etype", "c128"), spec.get("uname", "U"),
              f"k={spec['k']}", f"cs={spec.get('cs')}"]
+    if spec.get("flagform"):
+        parts[0] = "u2:flagforms:" + spec["flagform"]
     if spec.get("utd") is not None:
         parts.append("utd" if spec["utd"] else "utd=False")
+    if spec.get("utd_form", "bool") != "bool":
+        parts.append("utd-as-" + spec["utd_form"])
     if spec.get("cs_form", "str") != "str":
         parts.append("cs-" + spec["cs_form"])
     if spec.get("ctor"):
@@ -1299,6 +1317,8 @@ def div_record(ctx, spec, res):
     # raises it is counted as an unsupported form.
     int_cs = spec.get("cs_form") in DIV_INT_CS
     unsupported = et in DIV_UNSUPPORTED or (int_cs and entry not in ("mcu", "ldmcu"))
+    if spec.get("flagform"):
+        ctx.count("flagforms:" + spec["flagform"] + (f":{entry}:unsupported-{res['exc']}" if unsupported and res["exc"] else ""))
     if res["exc"] is not None:
         exc = res["exc"]
         if unsupported:
@@ -1815,9 +1835,136 @@ def div_util_cases(ctx, nprng):
     return specs
 
 
+def div_flagform_cases(ctx, nprng):
+    """Flag-form pass of part B.  Options of the entry points of mcg.py / mcu.py / ldmcu.py / qdmcu.py:
+      up_to_diagonal (Mcg constructor; bool)        True / False as bool, numpy.bool_, int 1 / 0; positional, keyword, all
+                                                    keywords, alone; k = 1 (plain controlled gate: no effect), 2, 3, 4; U(2)
+                                                    matrices (the flag selects controlled-(U / sqrt det U)) and SU(2) (no effect)
+      error (MCU.mcu; `error == 0` -> exact Ldmcu)  0 as int, float 0.0, -0.0, np.float64, np.float32, np.int64, positional /
+                                                    keyword / all keywords, k = 1, 2, 3, next to error > 0 (div_static_cases);
+                                                    the MCU constructor itself rejects every zero (its own default `error=0`:
+                                                    arccos(1) = 0 -> OverflowError; outside 'error in (0, 1)': counted)
+      ctrl_state (all; "decimal or bitstring")      0 (all-open: falsy), 2^k - 1 and a middle value as int, np.int64, np.int32
+                                                    and as the bit string, constructor and static helper, k = 1..4.  Ldmcu /
+                                                    MCU convert (apply_ctrl_state): oracle + tie with the canonical string.
+                                                    Qdmcu / Mcg annotate `str`: right or a clean exception (counted), never a
+                                                    different pattern.
+    Judged by the operator oracle of div_eval (exact: 1e-7; approximate MCU: same operator as the canonical build and the
+    spectral bound); ties through div_tie with the canonical values."""
+    import warnings
+    from qiskit.quantum_info import Operator
+    from qclib.gates.mcu import MCU
+    r = ctx.rng
+    ut = tie_u(nprng)
+    su = to_su2(haar_u2(nprng))
+    up = np.diag([1, np.exp(1j * r.uniform(0.25, 0.6))])
+    specs = []
+    i = 0
+    # ---- (A) up_to_diagonal
+    ctors = ("pos", "kw", "allkw", "default")
+    for k in (1, 2, 3, 4):
+        for nm, m in (("tieU", ut), ("S", S), ("su2", su)):
+            for utd in (True, False):
+                for uf in ("npbool", "int", "bool"):
+                    i += 1
+                    ctor = ctors[i % 4]
+                    cs = None if ctor == "default" else "".join(r.choice("01") for _ in range(k))
+                    sp = dict(_mat(m), uname=nm, entry="mcg", k=k, cs=cs, utd=utd, utd_form=uf, ctor=ctor,
+                              flagform=f"up_to_diagonal:{uf}:{utd}")
+                    specs.append(sp)
+                    if nm == "tieU" and k in (2, 3) and uf != "bool":
+                        div_tie(ctx, sp, m)
+    # the flag on a host (append / inverse), where a second read of the definition happens
+    for j, (form, uf, utd) in enumerate((("append", "npbool", True), ("inverse", "int", True), ("copy", "npbool", False),
+                                         ("twice", "int", False), ("to_instruction", "npbool", True))):
+        k = 2 + j % 2
+        ctrl, tgt = PLACES[k][j % len(PLACES[k])]
+        specs.append(dict(_mat(ut), uname="tieU", entry="mcg", form=form, k=k, cs="".join(r.choice("01") for _ in range(k)), utd=utd,
+                          utd_form=uf, ctor=("kw", "pos")[j % 2], flagform=f"up_to_diagonal:{uf}:{utd}",
+                          host=dict(name="q6", regs=HOSTS["q6"], qform=("int", "qubit")[j % 2], controls=ctrl, target=tgt)))
+    # ---- (B) error == 0 of the static MCU.mcu in every numeric form
+    calls = ("pos", "kw", "allkw")
+    qfs = (("int", "q6"), ("qubit", "bca"), ("qubit", "abc"))
+    for etag in ("int", "pyfloat", "negzero", "f64", "f32", "npint"):
+        for k in (1, 2, 3):
+            i += 1
+            ctrl, tgt = PLACES[k][i % len(PLACES[k])]
+            qf, hn = qfs[i % 3]
+            sp = dict(_mat(ut), uname="tieU", entry="mcu", form="static", k=k, cs="".join(r.choice("01") for _ in range(k)),
+                      call=calls[i % 3], error=0, etag=etag, flagform=f"error:{etag}:0",
+                      host=dict(name=hn, regs=HOSTS[hn], qform=qf, controls=ctrl, target=tgt))
+            specs.append(sp)
+            if k >= 2:
+                div_tie(ctx, sp, ut)
+        # the constructor: error = 0 is its default and is rejected in every form (not a member of 'error in (0, 1)')
+        e0 = div_err({"error": 0, "etag": etag})
+        key = f"u2:flagforms:error:{etag}:0:MCU-constructor"
+        with warnings.catch_warnings():
+            warnings.simplefilter("ignore")
+            try:
+                g = MCU(ut, 2, e0)
+            except (ValueError, OverflowError, ZeroDivisionError) as e:
+                ctx.count(f"flagforms:error:{etag}:0:MCU-constructor:unsupported-{type(e).__name__}")
+                continue
+            try:
+                err = float(np.abs(Operator(g.definition).data - ideal(ut, 2)).max())
+            except Exception as e:
+                ctx.fail(key + f":accepted-but-raises-{type(e).__name__}", f"MCU(U, 2, {e0!r}) accepted error = 0 but building the "
+                         f"definition raises {type(e).__name__}: {str(e)[:120]}", rep("mcu", ut, 2, None, error=0))
+                continue
+        ctx.count(f"flagforms:error:{etag}:0:MCU-constructor:accepted")
+        if not err <= TOL:
+            ctx.fail(key, f"MCU(U, 2, {e0!r}) accepted error = 0; max |Operator - controlled-U| = {err:.3e}", rep("mcu", ut, 2, None, error=0))
+        else:
+            ctx.ok(key)
+    # ---- (C) decimal ctrl_state at both ends of the range and in the middle
+    kinds = [("ldmcu", "tieU", ut, {}), ("mcu", "P", up, {"approx": True}), ("mcu", "tieU", ut, {"error": 0}),
+             ("qdmcu", "tieU", ut, {}), ("mcg", "tieU", ut, {}), ("mcg", "su2", su, {}), ("mcg", "tieU", ut, {"utd": True})]
+    for entry, nm, m, extra in kinds:
+        for k in (1, 2, 3, 4):
+            ends = [("zero", "0" * k), ("ones", "1" * k)]
+            if k >= 2:
+                mid = "0" * k
+                while mid in ("0" * k, "1" * k):
+                    mid = "".join(r.choice("01") for _ in range(k))
+                ends.append(("middle", mid))
+            for where, cs in ends:
+                cforms = ["int", "npint"] if where != "middle" else [("int", "npint")[i % 2]]
+                if where != "middle" and k == 3:
+                    cforms.append("npint32")
+                if where != "middle" and k == 2:
+                    cforms.append("str")
+                for cf in cforms:
+                    i += 1
+                    static = extra.get("error") == 0 or i % 2 == 0
+                    sp = dict(_mat(m), uname=nm, entry=entry, k=k, cs=cs, cs_form=cf, flagform=f"ctrl_state:{cf}:{where}")
+                    if "utd" in extra:
+                        static = False
+                        sp["utd"] = True
+                    if static:
+                        ctrl, tgt = PLACES[k][i % len(PLACES[k])]
+                        qf, hn = qfs[i % 3]
+                        sp.update(form="static", call=calls[i % 3],
+                                  host=dict(name=hn, regs=HOSTS[hn], qform=qf, controls=ctrl, target=tgt))
+                    else:
+                        sp["ctor"] = ("kw", "pos", "allkw")[i % 3]
+                    if extra.get("error") == 0:
+                        sp["error"] = 0
+                    if extra.get("approx"):
+                        st = div_mcu_setup(m, 1 if k >= 2 else 0, k=k)
+                        if st is None:
+                            continue
+                        sp["error"] = st[1]
+                    specs.append(sp)
+                    if entry in ("ldmcu", "mcu") and cf != "str" and where != "middle" and k in (2, 3):
+                        div_tie(ctx, sp, m)
+    return specs
+
+
 def diversity(ctx, nprng):
     specs = []
-    for gen in (div_etype_cases, div_phase_cases, div_mcu_cases, div_static_cases, div_object_cases, div_size_cases, div_util_cases):
+    for gen in (div_etype_cases, div_phase_cases, div_mcu_cases, div_static_cases, div_object_cases, div_size_cases, div_util_cases,
+                div_flagform_cases):
         specs += gen(ctx, nprng)
     seen, uniq = set(), []
     for s in specs:
